@@ -18,10 +18,12 @@ KNOWN_CLASS = "C03-zoutside"
 def _model_checks(ctx):
     q = ctx.quick
     w = 4 if q else 8
-    for cfg in (["MC_Symmetries"] if q else ["MC_Symmetries", "MC_Symmetries_thorough", "MC_Symmetries_thorough2", "MC_Symmetries_thorough3"]):
+    for cfg in (["MC_Symmetries"] if q else ["MC_Symmetries", "MC_Symmetries_thorough", "MC_Symmetries_thorough2", "MC_Symmetries_thorough3", "MC_Symmetries_thorough4"]):
         r = lib.tlc("MC_Symmetries", cfg=cfg, workers=w, timeout=2400, heap="6g")
         ctx.mc_must_pass(r, "symmetry algebra S1-S3, switch guards, every operation class used (%s)" % cfg, "MC_Symmetries")
     lib.log("  [%4.0fs] MC_Symmetries done" % (time.time() - ctx.t0))
+    r = lib.tlc("MC_RowOps", cfg="MC_RowOps" if q else "MC_RowOps_thorough", workers=w, timeout=1500, heap="6g")
+    ctx.mc_must_pass(r, "row operations of ProjMatrixElemsForOneBin: merge leaves no voxel twice, keeps the union and the sums; sort keeps the multiset", "MC_RowOps")
     r = lib.tlc("MC_MatrixCache", cfg="MC_MatrixCache" if q else "MC_MatrixCache_thorough", workers=w, timeout=1500, heap="6g")
     ctx.mc_must_pass(r, "row cache and set-up life cycle, all short histories; cache key injective (S4)", "MC_MatrixCache")
     # vacuity guard: each faulty variant of the model must violate an invariant
@@ -69,13 +71,18 @@ def _validate(ctx, module, chunks, jobs, boundary):
                     ctx.sample({k: rec[k] for k in ("e", "geom", "N", "R", "span", "maxDelta", "mash", "tofMash", "zmax", "nppr1024", "sw", "eff")}, cap=3)
             elif e == "Sym":
                 ctx.nontrivial(str(key) + rec["op"])
+            elif e == "Reset":
+                ctx.traces += 1
+                key = ("rowops",)
+            elif e in ("MergeAB", "SortA", "SortB", "EraseAtA", "ScaleA", "CopyAB"):
+                ctx.nontrivial("rowops" + e + str(min(len(rec["A"]), 6)) + str(min(len(rec["B"]), 6)))
             elif e == "Config":
                 fam = rec["family"]
             elif e == "New":
                 ctx.traces += 1
-                key = ("rows", fam, tuple(rec["sw"]), rec["cacheOn"], rec["basicOnly"])
+                key = ("rows", fam, tuple(rec.get("sw", [rec.get("keepAll")])), rec["cacheOn"], rec["basicOnly"])
                 if ctx.traces % 53 == 0 or len(ctx.samples) < 4:
-                    ctx.sample({"e": "New", "family": fam, "sw": rec["sw"], "cacheOn": rec["cacheOn"], "basicOnly": rec["basicOnly"]})
+                    ctx.sample({"e": "New", "family": fam, "impl": rec.get("impl"), "sw": rec.get("sw", [rec.get("keepAll")]), "cacheOn": rec["cacheOn"], "basicOnly": rec["basicOnly"]})
             elif e in ("Get", "SetUp", "Clear"):
                 ctx.nontrivial(str(key) + e + str(len(rec.get("hooks", []))) + str(rec.get("gid", "")))
         if at is not None or not ok:
@@ -91,12 +98,15 @@ def _validate(ctx, module, chunks, jobs, boundary):
             ln = newbad[0][0]
             if module == "Trace_MatrixCache":
                 out = _block_replay(recs, ln)
+            elif module == "Trace_RowOps":
+                start = max(i for i in range(ln) if recs[i]["e"] == "Reset")
+                out = recs[start:ln]
             else:
                 cfg = max(i for i in range(ln) if recs[i]["e"] == "SymCfg")
                 out = [recs[cfg]] + ([recs[ln - 1]] if ln - 1 != cfg else [])
             rp = os.path.join(ctx.work, "violation-" + os.path.basename(p))
             lib.write_ndjson(rp, out)
-            what = json.dumps({k: v for k, v in recs[ln - 1].items() if k != "row"})[:240]
+            what = json.dumps({k: v for k, v in recs[ln - 1].items() if k not in ("row", "segs", "axial")})[:240]
             ctx.violation("%d recorded lines not explained by %s (class %s), first: %s" % (len(newbad), module, newbad[0][1], what), rp)
     return stats
 
@@ -114,6 +124,8 @@ def _detect_fixes():
         os.environ["C03_UADB_FIXED"] = "1"
     if has("src/recon_buildblock/ProjMatrixByBinUsingInterpolation.cxx", "Disabling the 90degrees_min_phi symmetry"):
         os.environ["C03_INTERP_SQUARE_FIXED"] = "1"
+    if has("src/recon_buildblock/ProjMatrixByBinFromFile.cxx", "caching cannot be disabled for this class"):
+        os.environ["C03_FROMFILE_GUARD_FIXED"] = "1"
 
 
 def run(ctx):
@@ -123,7 +135,7 @@ def run(ctx):
     jobs = 4 if q else 8
     if ctx.replay:
         first = lib.read_ndjson(ctx.replay)[0]["e"]
-        module = "Trace_Symmetries" if first in ("SymCfg", "SymRejected") else "Trace_MatrixCache"
+        module = "Trace_Symmetries" if first in ("SymCfg", "SymRejected") else "Trace_RowOps" if first == "Reset" else "Trace_MatrixCache"
         _validate(ctx, module, [(ctx.replay, 1)], 1, None)
         return ctx.finish(rule="replay of one recorded execution")
     # 1. model checks of the specification; the driver is built and run meanwhile
@@ -132,6 +144,8 @@ def run(ctx):
         exe = lib.build_driver("c03_matrix")
         t1 = os.path.join(ctx.work, "sym.ndjson")
         lib.run_driver(exe, ["sym", t1, 0 if q else 1], env=env, timeout=1200)
+        t3 = os.path.join(ctx.work, "rowops.ndjson")
+        lib.run_driver(exe, ["rowops", t3, 0 if q else 1], env=env, timeout=600)
         tc = os.path.join(ctx.work, "count.ndjson")
         lib.run_driver(exe, ["count", tc, 0 if q else 1], env=env, timeout=300)
         nfam = lib.read_ndjson(tc)[0]["families"]
@@ -149,6 +163,7 @@ def run(ctx):
     _validate(ctx, "Trace_Symmetries", c1, jobs, "SymCfg")
     lib.log("  [%4.0fs] %d symmetry chunks validated" % (time.time() - ctx.t0, len(c1)))
     _validate(ctx, "Trace_MatrixCache", c2, jobs, "Config")
+    _validate(ctx, "Trace_RowOps", lib.split_trace(t3, os.path.join(ctx.work, "chunks"), maxlines=8000, boundary="Reset"), jobs, "Reset")
     ctx.exhaustive = False
     ctx.assumptions = [
         "the numeric content of a ray-traced row is not specified: rows are compared with rows computed directly by the same class (no symmetries, no cache) within RowAbsTol = 2^-14 + 2^-12 relative",
